@@ -1,6 +1,7 @@
 import NanoVerif.Model.Proto
 import NanoVerif.Model.Tuner
 import NanoVerif.Model.Tune
+import NanoVerif.Model.TunerSurrogate
 /-!
   driver family `tuner` (C13): one self-contained op per line (formats: see harness/c13.cpp).
 
@@ -112,6 +113,8 @@ structure Ctx where
   threw : Bool
   /-- final acceptance test of a complete resolution (backtrack when it fails) -/
   accept : Found → Bool := fun _ => true
+  /-- surrogate tuner with the solver runs logged: the centre is `Tuner.surrogateCentre` (no search) -/
+  centre : Option (List (Step Float) → Option IGrid) := none
 
 abbrev Rem := List (List IGrid)
 
@@ -181,7 +184,7 @@ def dfs (ctx : Ctx) : Nat → Bool → St Float → Rem → Found → StateM Nat
         | none => []
       let all := preferred ++ ties.filter (fun g => !preferred.contains g)
       let cands :=
-        if surrogateMain then all.take 1
+        if surrogateMain then (if ctx.centre.isSome then all else all.take 1)  -- the head is the start of the minimisation
         else if ctx.c.kind == .surrogate then all   -- a silent end of the coarse loop hands over to the oracle
         else match remNext ctx.mode rem with
           | [] => all
@@ -200,6 +203,9 @@ def dfs (ctx : Ctx) : Nat → Bool → St Float → Rem → Found → StateM Nat
       | _ =>
         let centres : List (Option IGrid) :=
           if surrogateMain && st.steps.length < ctx.c.maxEvals then
+            match ctx.centre with
+            | some centreOfSteps => [centreOfSteps st.steps]
+            | none =>
             match remNext ctx.mode rem with
             | [] => if ctx.threw then [none] else st.steps.map (fun s => some s.igrid)
             | ps => ((ps.flatMap fun p => localSearch ctx.c.mn ctx.c.mx p 1).eraseDups).map some
@@ -241,9 +247,91 @@ def baseCfg (kind : Kind) (sizes : List Nat) (maxEvals : Nat) (f : IGrid → Flo
   ⟨kind, minOf sizes, maxOf sizes, maxEvals, Float.isFinite, f, sortSteps, fun _ => none⟩
 
 /-- the model run under the resolved choices -/
-def modelRun (kind : Kind) (sizes : List Nat) (maxEvals : Nat) (f : IGrid → Float) (found : Found) : Res Float :=
+def modelRun (kind : Kind) (sizes : List Nat) (maxEvals : Nat) (f : IGrid → Float) (found : Found)
+    (centre : Option (List (Step Float) → Option IGrid) := none) : Res Float :=
   tunerOptimize kind sizes maxEvals Float.isFinite f (hintedSort found.hints)
-    (fun steps => found.centres.lookup steps.length)
+    (centre.getD fun steps => found.centres.lookup steps.length)
+
+/-! ### parameter spaces, the quadratic surrogate, the logged solver runs -/
+
+def epsF : Float := Float.ofBits 0x3CB0000000000000
+
+def pSpacesT : P (List (Nat × List Float)) := fun ts =>
+  match pNat ts with
+  | some (d, ts) => pMany (fun ts => match pNat ts with
+      | some (ty, ts) => (pList pFloat ts).map fun (v, ts) => ((ty, v), ts)
+      | none => none) d ts
+  | none => none
+
+def kindOf (ty : Nat) : SpaceKind := if ty == 0 then .log10 else .linear
+
+def mkSpaces (sp : List (Nat × List Float)) : Option (List (Space Float)) :=
+  sp.mapM fun (ty, v) => Space.make? epsF (kindOf ty) v
+
+/-- the final state of one `solver->minimize` of the tuner, as logged by the hook `solver.done` -/
+structure Solve where
+  nsteps : Nat
+  conv : Bool
+  valid : Bool
+  fx : Float
+  x0 : List Float
+  x : List Float
+  gx : List Float
+
+def pSolve : P Solve := fun ts => do
+  let (n, ts) ← pNat ts
+  let (c, ts) ← pNat ts
+  let (v, ts) ← pNat ts
+  let (fx, ts) ← pFloat ts
+  let (x0, ts) ← pList pFloat ts
+  let (x, ts) ← pList pFloat ts
+  let (gx, ts) ← pList pFloat ts
+  pure (⟨n, c != 0, v != 0, fx, x0, x, gx⟩, ts)
+
+def sameBits (a b : List Float) : Bool :=
+  a.length == b.length && (List.zipWith (fun (x y : Float) => x.toBits == y.toBits) a b).all id
+
+/-- the oracle `Tuner.Solver` read from the log: the runs alternate fit / minimisation; a fit is found by the number of
+    steps it was given, the minimisation that follows it by the coefficients and the starting point it was given
+    (the solver is deterministic: the same function from the same point gives the same answer) -/
+def solverOfLog (log : Array Solve) : Solver Float where
+  fit := fun p2 _ =>
+    match log.findIdx? (fun e => e.nsteps == p2.length) with
+    | some i => (log[i]?).bind fun e => if e.valid then some e.x else none
+    | none => none
+  opt := fun m x0 =>
+    match (List.range log.size).find? (fun i =>
+        i % 2 == 0 && ((log[i]?).map fun e => sameBits e.x m).getD false &&
+          ((log[i + 1]?).map fun e => sameBits e.x0 x0).getD false) with
+    | some i => (log[i + 1]?).bind fun e => if e.valid then some e.x else none
+    | none => none
+
+def absL (l : List Float) : List Float := l.map Float.abs
+
+/-- the model's evaluation of the two functions at the logged points, each number followed by the magnitude of the sum
+    it is (the sum of the absolute values of its terms): `fx |fx| n gx… n |gx|…` per run -/
+def showSolves (spaces : List (Space Float)) (f : IGrid → Float) (evaluated : List IGrid) (log : List Solve) :
+    Option String :=
+  let rec go (prev : Option Solve) (isFit : Bool) : List Solve → Option (List String)
+    | [] => some []
+    | e :: rest => do
+      let out ←
+        if isFit then do
+          let pts := evaluated.take e.nsteps
+          let ps ← pts.mapM fun g => (mapToGrid (spaces.map (·.grid)) g).bind (toSurrogateVec spaces)
+          let rows := ps.map quadTerms
+          let ys := pts.map f
+          let rowsA := rows.map absL
+          let ysA := ys.map fun t => -(Float.abs t)
+          pure [hexOfFloat (fitValue rows ys e.x), hexOfFloat (fitValue rowsA ysA (absL e.x)),
+                showFloats (fitGrad rows ys e.x), showFloats (fitGrad rowsA ysA (absL e.x))]
+        else do
+          let m := (prev.map (·.x)).getD []
+          pure [hexOfFloat (quadValue m e.x), hexOfFloat (quadValue (absL m) (absL e.x)),
+                showFloats (quadGrad m e.x), showFloats (quadGrad (absL m) (absL e.x))]
+      let more ← go (some e) (!isFit) rest
+      pure (out ++ more)
+  (go none true log).map fun toks => String.intercalate " " (["solves", toString log.length] ++ toks)
 
 def pKind : P Kind
   | "local-search" :: ts => some (.localSearch, ts)
@@ -276,6 +364,8 @@ structure TuneState where
   params : List (List Float)
   /-- call log: (grid point, fold, model data of the closest trial or -1) -/
   calls : List (Nat × Nat × Int)
+  /-- number of trials of every batch (`tuner_callback` invocation) so far -/
+  batches : List Nat := []
 
 /-- one `tuner_callback(new_params)` -/
 def tuneBatch (sizes : List Nat) (spaces : List (List Float)) (payload : Nat → Nat → Option (List Float))
@@ -284,8 +374,9 @@ def tuneBatch (sizes : List Nat) (spaces : List (List Float)) (payload : Nat →
   let gis := batch.map (flatten sizes)
   let folds := st.result.folds
   let k := batch.length
-  let closest := fun (t : Nat) =>
-    Tune.argminScan dblMax (st.params.map fun p => dist p (newParams.getD t []))
+  -- `result.add(new_params)` comes first: `m_params` holds the old rows and those of the batch in flight
+  let rows := st.params ++ newParams
+  let closest := fun (t : Nat) => Tune.closestTrial dblMax dist rows (newParams.getD t []) st.params.length
   -- the payload of every (new trial, fold) must be known
   let table ← (List.range k).mapM fun t => (List.range folds).mapM fun f => payload (gis.getD t 0) f
   let cb := fun (t f : Nat) (_ : Option Payload) =>
@@ -294,7 +385,7 @@ def tuneBatch (sizes : List Nat) (spaces : List (List Float)) (payload : Nat →
   let pre := st.result.add k
   let calls := (Tune.callsOf folds order).map fun (t, f) =>
     (gis.getD t 0, f, ((pre.get? (closest t) f).map (·.extra)).getD (-1))
-  pure ⟨Tune.runBatch cb closest st.result k order, st.params ++ newParams, st.calls ++ calls⟩
+  pure ⟨Tune.runBatch cb closest st.result k order, st.params ++ newParams, st.calls ++ calls, st.batches ++ [k]⟩
 
 def callLe (a b : Nat × Nat × Int) : Bool :=
   a.1 < b.1 || (a.1 == b.1 && (a.2.1 < b.2.1 || (a.2.1 == b.2.1 && a.2.2 ≤ b.2.2)))
@@ -341,21 +432,73 @@ def handle : Toks → Option String
   | "run" :: ts => do
     let (kind, ts) ← pKind ts
     let (maxEvals, ts) ← pNat ts
-    let (spaces, ts) ← pSpaces ts
+    let (spacesT, ts) ← pSpacesT ts
     let (land, ts) ← pLand ts
     let ts ← expect "|" ts
     let (batches, ts) ← pList (pList pIGrid) ts
     let (first, ts) ← pList pIGrid ts
+    let ts ← expect "|" ts
+    let (_eps, ts) ← pFloat ts
+    let (log, ts) ← pList pSolve ts
     guard ts.isEmpty
+    let spaces := spacesT.map (·.2)
     let sizes := spaces.map List.length
-    let ctx : Ctx := { c := baseCfg kind sizes maxEvals land.value, mode := 0, first := first.head?, threw := first.isEmpty }
+    match mkSpaces spacesT with
+    | none => pure "throw critical"     -- the constructor of `param_space_t` refuses the grid
+    | some sps =>
+    -- the surrogate's centre is the model's: closest grid point of the logged minimiser of the logged fit
+    let centre : Option (List (Step Float) → Option IGrid) :=
+      if kind == .surrogate then some (surrogateCentre dblMax sps (solverOfLog log.toArray)) else none
+    let ctx : Ctx := { c := baseCfg kind sizes maxEvals land.value, mode := 0, first := first.head?, threw := first.isEmpty,
+                       centre := centre }
     let found := if sizes.isEmpty then {} else search ctx (avgOf sizes) batches
-    match modelRun kind sizes maxEvals land.value found with
-    | .ok steps tr => pure s!"ok {← showBatches spaces tr} {← showSteps spaces steps}"
-    | .bad tr => pure s!"throw critical {← showBatches spaces tr}"
-    | .fail tr => pure s!"throw critical {← showBatches spaces tr}"
-    | .noSpaces => pure "throw critical 0"
+    let solves := fun (tr : List (List IGrid)) => showSolves sps land.value tr.flatten log
+    match modelRun kind sizes maxEvals land.value found centre with
+    | .ok steps tr => pure s!"ok {← showBatches spaces tr} {← showSteps spaces steps} {← solves tr}"
+    | .bad tr => pure s!"throw critical {← showBatches spaces tr} {← solves tr}"
+    | .fail tr => pure s!"throw critical {← showBatches spaces tr} {← solves tr}"
+    | .noSpaces => pure "throw critical 0 solves 0"
     | .fuel => pure "model-out-of-fuel"
+  | "space" :: ts => do
+    let (ty, ts) ← pNat ts
+    let (grid, ts) ← pList pFloat ts
+    let (queries, ts) ← pList pFloat ts
+    guard ts.isEmpty
+    match Space.make? epsF (kindOf ty) grid with
+    | none => pure "throw critical"
+    | some s =>
+      let rows := queries.map fun q =>
+        let tos := match s.toSurrogate q with
+          | some v => hexOfFloat v
+          | none => "x"
+        let cp := (s.closestGridPoint dblMax q).getD 0
+        let cv := ((s.closestGridValue dblMax q).map hexOfFloat).getD "none"
+        s!"{tos} {hexOfFloat (s.fromSurrogate q)} {cp} {cv}"
+      pure (String.intercalate " " (["ok", toString queries.length] ++ rows))
+  | "sfit" :: ts => do
+    let (n, ts) ← pNat ts
+    let (d, ts) ← pNat ts
+    let (ps, ts) ← pList pFloat ts
+    let (ys, ts) ← pList pFloat ts
+    let (x, ts) ← pList pFloat ts
+    guard ts.isEmpty
+    guard (0 < d && ps.length == n * d && ys.length == n && x.length == quadLen d)
+    let rows := ((List.range n).map fun i => (ps.drop (i * d)).take d).map quadTerms
+    let rowsA := rows.map absL
+    let ysA := ys.map fun t => -(Float.abs t)
+    let fx := fitValue rows ys x
+    pure s!"ok {hexOfFloat fx} {hexOfFloat fx} {showFloats (fitGrad rows ys x)} | {hexOfFloat (fitValue rowsA ysA (absL x))} {showFloats (fitGrad rowsA ysA (absL x))}"
+  | "squad" :: ts => do
+    let (m, ts) ← pList pFloat ts
+    let (x, ts) ← pList pFloat ts
+    guard ts.isEmpty
+    match quadSize? m with
+    | some n =>
+      if n == x.length then
+        let fx := quadValue m x
+        pure s!"ok {hexOfFloat fx} {hexOfFloat fx} {showFloats (quadGrad m x)}"
+      else pure s!"size-mismatch {n}"
+    | none => none
   | "tune" :: ts => do
     let (kind, ts) ← pKind ts
     let (maxEvals, ts) ← pNat ts
@@ -391,6 +534,8 @@ def handle : Toks → Option String
       let (f, ts) ← pInt ts
       let (c, ts) ← pInt ts
       pure ((g, f, c), ts)) ts
+    let ts ← expect "|" ts
+    let (obsBatches, ts) ← pList pNat ts
     guard ts.isEmpty
     let sizes := spaces.map List.length
     let table := payloads.toArray
@@ -400,9 +545,9 @@ def handle : Toks → Option String
     let valueOf := fun (g : IGrid) =>
       ((List.range folds).foldl (fun acc f => acc + (((payload (flatten sizes g) f).getD []).headD nan)) 0.0) /
         Float.ofNat folds
-    let st0 : TuneState := ⟨Tune.Result.empty folds, [], []⟩
+    let st0 : TuneState := ⟨Tune.Result.empty folds, [], [], []⟩
     let finish := fun (st : TuneState) (thrown : Bool) => do
-      if thrown then pure s!"throw critical {showCalls st.calls}"
+      if thrown then pure s!"throw critical {showCalls st.calls} batches {showNats st.batches}"
       else
         let r := st.result
         let values := (List.range r.trials).map fun t =>
@@ -411,7 +556,7 @@ def handle : Toks → Option String
           String.intercalate " " ([showFloats (st.params.getD t []), hexOfFloat (values.getD t nan)] ++
             (List.range r.folds).map fun f => showSlot (r.get? t f))
         pure (String.intercalate " " ([s!"ok {showCalls st.calls} trials {r.trials} folds {r.folds}",
-          s!"optimum {Tune.optimumTrial dblMax values}"] ++ rows))
+          s!"optimum {Tune.optimumTrial dblMax values}"] ++ rows ++ [s!"batches {showNats st.batches}"]))
     if sizes.isEmpty then
       -- no hyper-parameter: `tuner_callback(tensor2d_t{1, 0})`, one trial without parameters (tune.cpp:56)
       let st ← tuneBatch sizes spaces payload st0 [[]]
@@ -428,16 +573,20 @@ def handle : Toks → Option String
           | .fail tr => tr
           | _ => []
         match replay tr with
-        | some st => (st.calls.mergeSort callLe).map (fun (g, f, c) => (Int.ofNat g, Int.ofNat f, c)) == implCalls
+        | some st => (st.calls.mergeSort callLe).map (fun (g, f, c) => (Int.ofNat g, Int.ofNat f, c)) == implCalls &&
+            st.batches == obsBatches
         | none => false
-      let ctx : Ctx := { c := baseCfg kind sizes maxEvals valueOf, mode := if threw then 2 else 1, first := none,
+      -- the batches as observed at the pool (one `map` per batch) cut the flat trial order into the callback batches
+      let splitBy := fun (l : List IGrid) => (obsBatches.foldl (fun (acc : List (List IGrid) × List IGrid) k =>
+        (acc.1 ++ [acc.2.take k], acc.2.drop k)) ([], l)).1
+      let ctx : Ctx := { c := baseCfg kind sizes maxEvals valueOf, mode := if threw then 2 else 0, first := none,
                          threw := threw, accept := accept }
-      let found := search ctx (avgOf sizes) (if flat.isEmpty then [] else [flat])
+      let found := search ctx (avgOf sizes) (if flat.isEmpty then [] else if threw then [flat] else splitBy flat)
       match modelRun kind sizes maxEvals valueOf found with
       | .ok _ tr => do finish (← replay tr) false
       | .bad tr => do finish (← replay tr) true
       | .fail tr => do finish (← replay tr) true
-      | .noSpaces => pure "throw critical"
+      | .noSpaces => pure "throw critical batches 0"
       | .fuel => pure "model-out-of-fuel"
   | _ => none
 
